@@ -403,7 +403,7 @@ def stream_exhaustive(R, ncolors):
     n_exh = len(cases)
     extra = []
     rng = R.subrng('exh-extra')
-    for _ in range(R.pick(3000, 30000)):
+    for _ in range(R.pick(3000, 20000)):
         cfg = rng.choice(CONFIGS)
         k = rng.choice([kmax + 1, kmax + 2, kmax + 3])
         extra.append(dict(cfg, ops=[rng.choice(al) for _ in range(k)]))
@@ -453,7 +453,7 @@ def stream_ladders(R, ncolors):
     """do^k followed by every undo/redo interleaving that stays inside the stacks: depth-k undo/redo across commands that
     create groups and commands that combine into them (every step is compared and checked, so only maximal walks are run)"""
     kmax = 3
-    length = R.pick(6, 8)
+    length = R.pick(6, 7)
     al = ladder_alphabet()
     cases = []
     for ci, cfg in enumerate(LADDER_CONFIGS):
@@ -547,9 +547,9 @@ def rand_case(rng, burst=False, max_undo=50, ladder=False):
 
 
 def stream_random(R, ncolors, max_undo):
-    n = R.pick(700, 8000)
+    n = R.pick(700, 6000)
     nb = R.pick(16, 120)
-    nl = R.pick(400, 4000)
+    nl = R.pick(400, 2000)
     cases = [rand_case(R.subrng('rand', i)) for i in range(n)]
     cases += [rand_case(R.subrng('ladder', i), ladder=True) for i in range(nl)]
     cases += [rand_case(R.subrng('burst', i), burst=True, max_undo=max_undo) for i in range(nb)]
